@@ -90,8 +90,15 @@ func NewMarchingCanvas(cubesPerUnit float64) *MarchingCanvas {
 	}
 }
 
-func (d MarchingCanvas) index(x, y, z int) int {
+func (d *MarchingCanvas) index(x, y, z int) int {
 	return (z * marchingSectionSizeSquared) + (y * marchingSectionSize) + x
+}
+
+func (d *MarchingCanvas) float1Chunk_atomic(section *marchingSection, vec modeling.VectorInt) float1MarchingSection {
+	index := d.chunkIndex_atomic(section, vec)
+	d.chunkMutex.Lock()
+	defer d.chunkMutex.Unlock()
+	return d.float1Data[index]
 }
 
 func (d *MarchingCanvas) chunkIndex_atomic(section *marchingSection, vec modeling.VectorInt) int {
@@ -183,8 +190,7 @@ func (d *MarchingCanvas) addFloat1Range(section *marchingSection, chunkPos, min,
 		panic(fmt.Errorf("cant add float1 to section with type of: %d", section.dataType))
 	}
 
-	index := d.chunkIndex_atomic(section, chunkPos)
-	data := d.float1Data[index]
+	data := d.float1Chunk_atomic(section, chunkPos)
 
 	for z := min.Z; z < max.Z; z++ {
 		for y := min.Y; y < max.Y; y++ {
